@@ -58,6 +58,13 @@ type ctx struct {
 	reply []byte
 	ls    *listenSession
 
+	// a second client that has the controller configured with a time zone of its own (a zone with
+	// offset changes, different from the process zone): what a status means does not depend on it
+	u2    uhppote.IUHPPOTE
+	fake2 *drv.Fake
+	ls2   *listenSession
+	dev   *time.Location
+
 	cur kase // the case being executed (for panic reports)
 
 	viol      map[string]*found
@@ -72,6 +79,21 @@ func newCtx(r *vk.Run, z *zoneRef) *ctx {
 	}}
 	if !drv.Install(c.u, c.fake) {
 		r.Machinery("cannot install the fake driver")
+	}
+	devZone := "America/Santiago"
+	if z != nil && z.name == devZone {
+		devZone = "Europe/London"
+	}
+	if loc, err := time.LoadLocation(devZone); err == nil {
+		c.dev = loc
+		c.u2 = uhppote.NewUHPPOTE(types.BindAddr{}, types.BroadcastAddr{}, types.ListenAddr{}, time.Second,
+			[]uhppote.Device{uhppote.NewDevice("configured", serial, types.ControllerAddr{}, "udp", nil, loc)}, false)
+		c.fake2 = &drv.Fake{Script: func(drv.Call) ([][]byte, error) {
+			return [][]byte{append([]byte{}, c.reply...)}, nil
+		}}
+		if !drv.Install(c.u2, c.fake2) {
+			r.Machinery("cannot install the fake driver")
+		}
 	}
 	return c
 }
@@ -468,9 +490,11 @@ func (l *listenSession) OnError(err error) bool  { l.lastErr = err; return true 
 
 // startListener starts one uhppote.Listen session on the fake driver; the driver's Listen hands
 // the library's datagram callback to the harness, which then invokes it synchronously per event.
-func (c *ctx) startListener() {
+func (c *ctx) startListener() { c.ls = startListenerOn(c.u, c.fake) }
+
+func startListenerOn(u uhppote.IUHPPOTE, fake *drv.Fake) *listenSession {
 	l := &listenSession{connected: make(chan struct{}), events: make(chan *types.Status, 1), q: make(chan os.Signal), done: make(chan error, 1)}
-	c.fake.ListenFn = func(signal chan any, done chan any, callback func([]byte)) error {
+	fake.ListenFn = func(signal chan any, done chan any, callback func([]byte)) error {
 		l.cb = callback
 		go func() {
 			<-signal
@@ -478,9 +502,9 @@ func (c *ctx) startListener() {
 		}()
 		return nil
 	}
-	go func() { l.done <- c.u.Listen(l, l.q) }()
+	go func() { l.done <- u.Listen(l, l.q) }()
 	<-l.connected
-	c.ls = l
+	return l
 }
 
 func (c *ctx) stopListener() {
@@ -489,6 +513,38 @@ func (c *ctx) stopListener() {
 		<-c.ls.done
 		c.ls = nil
 	}
+	if c.ls2 != nil {
+		close(c.ls2.q)
+		<-c.ls2.done
+		c.ls2 = nil
+	}
+}
+
+// configuredZoneTimes: the civil minutes around every offset change 2023..2025 of the zone the
+// second client's controller is configured with (its skipped and repeated local hours).
+func (c *ctx) configuredZoneTimes() [][6]int {
+	out := [][6]int{}
+	if c.dev == nil {
+		return out
+	}
+	at := time.Date(2023, 1, 1, 12, 0, 0, 0, c.dev)
+	for at.Year() <= 2025 {
+		_, end := at.ZoneBounds()
+		if end.IsZero() || end.Year() > 2025 {
+			break
+		}
+		// wall-clock readings of the device zone from 2 h before to 2 h after the change, every 10 min,
+		// read off on both sides of it (the skipped readings lie between the two)
+		for _, side := range []time.Time{end.Add(-time.Second), end} {
+			y, m, d := side.Date()
+			for min := -150; min <= 150; min += 10 {
+				t := time.Date(y, m, d, side.Hour(), side.Minute()+min, 0, 0, time.UTC)
+				out = append(out, [6]int{t.Year(), int(t.Month()), t.Day(), t.Hour(), t.Minute(), 0})
+			}
+		}
+		at = end.Add(48 * time.Hour)
+	}
+	return out
 }
 
 func (l *listenSession) push(datagram []byte) (*types.Status, error) {
@@ -501,6 +557,16 @@ func (l *listenSession) push(datagram []byte) (*types.Status, error) {
 }
 
 func (c *ctx) status(path string, datagram []byte) (*types.Status, error) {
+	switch path {
+	case "Listen@configured-zone":
+		if c.ls2 == nil {
+			c.ls2 = startListenerOn(c.u2, c.fake2)
+		}
+		return c.ls2.push(append([]byte{}, datagram...))
+	case "GetStatus@configured-zone":
+		c.reply = datagram
+		return c.u2.GetStatus(serial)
+	}
 	if path == "Listen" {
 		if c.ls == nil {
 			c.startListener()
